@@ -71,6 +71,16 @@ Section Rfc6979.
           drbg_loop fuel' K' V' n
     end.
 
+  (** whatever the HMAC: the loop returns a value below n (0 on fuel exhaustion) *)
+  Lemma drbg_loop_range : forall fuel K V n, 0 < n -> drbg_loop fuel K V n < n.
+  Proof.
+    induction fuel as [|fuel IH]; intros K V n Hn; cbn [drbg_loop].
+    - exact Hn.
+    - destruct ((0 <? be_val (hmac K V)) && (be_val (hmac K V) <? n)) eqn:Hc.
+      + apply andb_prop in Hc. destruct Hc as [_ Hlt]. apply N.ltb_lt in Hlt. exact Hlt.
+      + apply IH. exact Hn.
+  Qed.
+
   Definition rfc6979_fuel : nat := 100.
 
   (** [x]: the 32 big-endian bytes of the key; [h1]: the 32 digest bytes as given *)
